@@ -58,7 +58,9 @@ def report(chk, recs, verdicts):
                 key = {'clause': f['clause'], 'mn': m0, 'shape': '', 'why': f['why'], 'site': site}
             else:
                 # the mnemonic belongs to the class where the defect is per mnemonic (suffix / name tables, GNU as naming)
-                specific = f['why'] in ('mnemonic', 'size', 'opsize', 'operand_count') or f['clause'].startswith('C09.gas_')
+                specific = (f['why'] in ('mnemonic', 'size', 'opsize', 'operand_count') or f['clause'].startswith('C09.gas_')) and ':' not in f['why']
+                if ':' in f['why']:
+                    shp = ''          # the why already names the root cause (operand form), independent of mnemonic and operand order
                 key = {'clause': f['clause'], 'mn': m0 if specific else '', 'shape': '' if specific else shp, 'why': f['why'], 'site': site}
             chk.violation(key, {'bytes': r['h'], 'intel': rt['text'], 'att': rt['att'], 'att_exception': rt.get('attexc'),
                                 'asm_intel': r['ai']['c'][:6], 'asm_att': r['aa']['c'][:6], 'gas_intel': bytes(r['gi']).hex(), 'gas_att': bytes(r['ga']).hex()})
